@@ -2047,6 +2047,12 @@ def r86(ctx: Ctx) -> RuleReport:
                     continue
                 par = pm.get(id(x))
                 how = None
+                # `p or ()` / `p if p else ()` hand the same object on
+                xx = x
+                while isinstance(par, (ast.BoolOp, ast.IfExp)) and not (isinstance(par, ast.IfExp) and par.test is xx):
+                    xx, par = par, pm.get(id(par))
+                if xx is not x:
+                    x = xx
                 if isinstance(par, (ast.For, ast.AsyncFor)) and par.iter is x:
                     how = f'for ... in {p}'
                 elif isinstance(par, ast.comprehension) and par.iter is x:
@@ -3483,4 +3489,41 @@ def r128(ctx: Ctx) -> RuleReport:
                                   f'triple (":mod~e.3 7~e.3") is taken for it - it is dropped, moved to the wrong triple or removed in place of the other one')
                 elif bad:
                     rep.undecided(f'{fi.fq}: {norm(bad[0])[:60]}', fi.loc(bad[0]), why)
+    return rep
+
+
+# ---------------------------------------------------------------------------------------------
+@rule('R131', 'the objects that travel between processes (models, graphs, trees, codecs, markers) hold only picklable state')
+def r131(ctx: Ctx) -> RuleReport:
+    rep = RuleReport('R131', r131.title, floor=10)
+    UNPICKLABLE = {'MappingProxyType': 'a mappingproxy', 'types.MappingProxyType': 'a mappingproxy', 'iter': 'an iterator', 'open': 'an open file',
+                   'threading.Lock': 'a lock', 'threading.RLock': 'a lock', 'Lock': 'a lock', 'RLock': 'a lock', 'weakref.ref': 'a weak reference',
+                   'zip': 'an iterator', 'map': 'an iterator', 'filter': 'an iterator', 'enumerate': 'an iterator', 'reversed': 'an iterator',
+                   'itertools.count': 'an iterator', 'count': 'an iterator', 'itertools.chain': 'an iterator', 'chain': 'an iterator'}
+    for c in ctx.repo.all_classes():
+        if c.module.name.startswith('penman.__main__') or c.module.name in ('penman._lexer', 'penman.exceptions'):
+            continue                    # the token iterator wraps a generator by design and lives within one parse call
+        for m in c.methods.values():
+            nested = {f.name for f in ctx.repo.all_functions() if f.parent is m}
+            for n in walk_local(m.node):
+                if not (isinstance(n, ast.Assign) and len(n.targets) == 1 and isinstance(n.targets[0], ast.Attribute) and norm(n.targets[0].value) == 'self'):
+                    continue
+                v = n.value
+                key = f'{m.fq}: self.{n.targets[0].attr} = {norm(v)[:40]}'
+                what = None
+                if isinstance(v, ast.Lambda):
+                    what = 'a lambda'
+                elif isinstance(v, ast.GeneratorExp):
+                    what = 'a generator'
+                elif isinstance(v, ast.Name) and v.id in nested:
+                    what = f'the nested function {v.id}'
+                elif isinstance(v, ast.Call) and norm(v.func) in UNPICKLABLE:
+                    what = UNPICKLABLE[norm(v.func)]
+                elif isinstance(v, ast.Call) and norm(v.func) in ('partial', 'functools.partial') and v.args and isinstance(v.args[0], ast.Lambda):
+                    what = 'a partial over a lambda'
+                if what:
+                    rep.violation(key, m.fq and ctx.repo.func(c.module.name, m.qualname).loc(n), f'{c.name} objects are handed to worker processes (multiprocessing pickles the codec, its model, graphs and '
+                                  f'markers) and copied with deepcopy; {what} cannot be pickled or deep-copied: the same call that works in-process raises TypeError in a worker')
+                else:
+                    rep.ok(key, ctx.repo.func(c.module.name, m.qualname).loc(n))
     return rep
